@@ -6,7 +6,7 @@ Afterwards: SEED_DIR=... SEED_SUFFIX=N python3 tools/confirm_seeds.py ; git -C /
 import json, os, re, subprocess
 
 V = os.path.dirname(os.path.dirname(os.path.abspath(__file__)))
-SEED_DIR = os.environ.get("SEED_DIR", "/tmp/seed4")
+SEED_DIR = os.environ.get("SEED_DIR", "/tmp/seed5")
 
 TMPL = '''You are helping test a verification tool by producing realistic *seeded defects* for a Python library, pyrtcm (a pure-Python RTCM3 GNSS protocol parser). You work ONLY inside your own scratch git worktree of the library at __WT__ (source under __WT__/src/pyrtcm, tests under __WT__/tests). Do not read or touch /repo, /verif or any other directory; do not commit anything.
 
@@ -18,12 +18,12 @@ Earlier rounds already produced the changes listed below for this property. Your
 __PREV__
 
 This round, prefer these kinds of change (they are the ones that slip past reviewers):
-  * a change that only matters for an unusual but legal OPTION value or combination (validate as a flag word or bool, labelmsm 0/2/other, quitonerror outside 0..2, parsed=False, bufsize 1, encoding bit combinations), or for an unusual but legal caller-supplied object (streams / sockets / handlers with odd but legal behaviour);
-  * a change at a BOUNDARY of the format: payload of exactly 0, 1, 2, 3 or 1023 bytes, satellite 64 / signal 32 / cell 64, a repeat count of 0 or of its maximum, the last bit of the payload, a message number at the edge of a range;
-  * a change to how ONE data type or ONE field is decoded (sign handling, resolution, character / UTF-8 fields, a width or an order in one rarely used message type);
-  * a change in WHICH exception is raised or whether one is swallowed, or a reordering of two statements that is invisible unless something fails between them;
-  * a change that makes two objects SHARE state (class-level or module-level objects, default arguments, returned internal buffers), visible only with two objects or two calls;
-  * two cooperating sites that each look fine alone.
+  * a "helpful" robustness or convenience addition that changes behaviour for some legal input: an extra validation that rejects a legal value, a normalisation (strip, lower, clamp, default substitution), a fallback that hides a failure, a retry, a silent conversion between types (bytes/bytearray/str/int/bool);
+  * a change in ARITHMETIC on bit offsets, lengths or counts that is invisible for the sizes the test data contains (a mask one bit short, a width taken from the wrong field, integer vs float division, a shift by a computed amount that differs only for large values);
+  * a change in the ORDER in which things are read, consumed or reported (bytes taken from the stream before a check instead of after, an attribute set before the one it depends on, a handler called before the state is updated);
+  * a change that makes the result depend on something it must not depend on: the type (not value) of an argument, the identity of an object, dict/set iteration order, the locale or default encoding, an environment variable, time;
+  * an interaction between TWO features (an option with a message type, an error mode with a protocol, an encoding flag with a buffer size) where each feature alone still works;
+  * a change confined to `__str__`/`__repr__`/logging/error-message construction that nevertheless alters behaviour (an exception raised while building a message, evaluation of a property with side effects).
 Avoid caches and memoisation, wholesale rewrites and new loops (already covered).
 
 Task: produce TWO independent, different changes to the library source (files under __WT__/src/pyrtcm only; call them mutA and mutB) such that each one, applied alone:
